@@ -8,6 +8,8 @@
 //	cap <fmt> <links> C <ipA> <portA> <ipB> <portB> <isnA> <isnB> <dataA> <dataB> [C ...] P (<pkt> | N | N=<links>)*  [@note]*
 //	<fmt>   = pcap_{le,be}[_ns] | pcapng_{le,be}[_len[_big]]  (_len: section_length given instead of -1,
 //	          _big: the section header block carries a 400 byte comment option)
+//	an optional word `t=<mode>[/<resolution>]` after <links> sets the capture timestamps (see timeOf; resolution =
+//	          pcapng if_tsresol: us (no option), ns, ms, b10 = 2^-10 s, s); the expected result never depends on it
 //	<links> = link type, or `l1+l2` (pcapng only: one interface per entry, packet i of a section on interface i mod n)
 //	<ip>    = dotted IPv4, or IPv6 as eight colon separated hex groups (not compressed)
 //	<data>  = `-` | hex | g<seed>:<len> (bytes of a 64 bit LCG, see genBytes)
@@ -126,6 +128,7 @@ type kase struct {
 	pkts     []pkt
 	secs     []int      // pcapng: indices into pkts at which a further section starts (word `N` or `N=<links>` in the op)
 	secLinks [][]string // links of the further sections (nil entry = as the first section)
+	times    string     // capture timestamps: `<mode>[/<resolution>]`, "" = dense/us (see timeOf)
 	notes    []string
 }
 
@@ -246,6 +249,9 @@ func (p pkt) String() string {
 func (k *kase) opText() string {
 	var sb strings.Builder
 	fmt.Fprintf(&sb, "cap %s %s", k.fmtName, strings.Join(k.links, "+"))
+	if k.times != "" {
+		sb.WriteString(" t=" + k.times)
+	}
 	for _, c := range k.conns {
 		fmt.Fprintf(&sb, " C %s %d %s %d %d %d %s %s", ipStr(c.ip[0]), c.port[0], ipStr(c.ip[1]), c.port[1],
 			c.isn[0], c.isn[1], c.data[0].text, c.data[1].text)
@@ -299,6 +305,13 @@ func parseKase(op string) (*kase, error) {
 		}
 	}
 	i := 3
+	if i < len(ws) && strings.HasPrefix(ws[i], "t=") {
+		k.times = ws[i][2:]
+		if _, _, ok := timeSpec(k.times); !ok {
+			return nil, fmt.Errorf("times %q", k.times)
+		}
+		i++
+	}
 	for i < len(ws) && ws[i] == "C" {
 		if i+8 >= len(ws) {
 			return nil, fmt.Errorf("short C")
@@ -503,6 +516,61 @@ func (k *kase) frames() (frames [][]byte, ifaces []int, flinks []string, origLen
 	return frames, ifaces, flinks, origLens
 }
 
+var timeModes = []string{"dense", "const", "zero", "minutes", "hours", "days", "back", "wrap", "jumps"}
+var timeResols = map[string]int{"us": -1, "ns": 9, "ms": 3, "b10": 0x80 | 10, "s": 0}
+
+func timeSpec(t string) (mode string, resol string, ok bool) {
+	mode, resol = "dense", "us"
+	if t != "" {
+		p := strings.Split(t, "/")
+		mode = p[0]
+		if len(p) == 2 {
+			resol = p[1]
+		} else if len(p) != 1 {
+			return "", "", false
+		}
+	}
+	for _, m := range timeModes {
+		if m == mode {
+			_, ok = timeResols[resol]
+		}
+	}
+	return mode, resol, ok
+}
+
+// timeOf is the capture time of packet i: seconds and nanoseconds. The modes: dense (as a live capture), const,
+// zero, minutes / hours / days between consecutive packets, back = every packet more than an hour EARLIER than
+// the one before, wrap = ts_sec runs over 2^32, jumps = irregular gaps of 0 s .. 3 days, forwards and backwards.
+func (k *kase) timeOf(i int) (sec uint64, nsec uint32) {
+	mode, _, _ := timeSpec(k.times)
+	const base = 1600000000
+	switch mode {
+	case "const":
+		return base, 0
+	case "zero":
+		return 0, 0
+	case "minutes":
+		return base + uint64(i)*90, 0
+	case "hours":
+		return base + uint64(i)*4000, uint32(i%7) * 1000000
+	case "days":
+		return base + uint64(i)*100000, 0
+	case "back":
+		return base + 400000000 - uint64(i)*5000, 0
+	case "wrap":
+		return 0xfffffff0 + uint64(i)*3700, 0
+	case "jumps":
+		var t int64 = base
+		x := uint64(12345)
+		for j := 0; j <= i; j++ {
+			x = x*6364136223846793005 + 1442695040888963407
+			t += []int64{0, 1, 90, 7200, 259200, -7200, 3601, 0}[x>>61]
+		}
+		return uint64(t), uint32(i%1000) * 1000
+	}
+	return base + uint64(i/1000), uint32(i%1000) * 100000
+}
+
 func (k *kase) capture() []byte {
 	b, _ := k.captureFacts()
 	return b
@@ -520,11 +588,38 @@ func (k *kase) captureFacts() ([]byte, string) {
 			for _, l := range k.linksOf(si) {
 				ls = append(ls, linkNum[l])
 			}
-			b, shb, last := ngSection(f, ls, frames[r[0]:r[1]], ifaces[r[0]:r[1]], origLens[r[0]:r[1]])
+			_, resol, _ := timeSpec(k.times)
+			var ts []uint64
+			for i := r[0]; i < r[1]; i++ {
+				sec, nsec := k.timeOf(i)
+				switch resol {
+				case "ns":
+					ts = append(ts, sec*1000000000+uint64(nsec))
+				case "ms":
+					ts = append(ts, sec*1000+uint64(nsec)/1000000)
+				case "b10":
+					ts = append(ts, sec*1024+uint64(nsec)*1024/1000000000)
+				case "s":
+					ts = append(ts, sec)
+				default:
+					ts = append(ts, sec*1000000+uint64(nsec)/1000)
+				}
+			}
+			b, shb, last := ngSection(f, ls, frames[r[0]:r[1]], ifaces[r[0]:r[1]], origLens[r[0]:r[1]], ts, timeResols[resol])
 			out = append(out, b...)
 			facts = append(facts, fmt.Sprintf("%d:%d", shb, last))
 		}
 		return out, strings.Join(facts, ",")
 	}
-	return writePcap(f, linkNum[k.links[0]], frames, origLens), "-"
+	secs := make([]uint32, len(frames))
+	fracs := make([]uint32, len(frames))
+	for i := range frames {
+		sec, nsec := k.timeOf(i)
+		secs[i] = uint32(sec) // ts_sec is 32 bit: wraps
+		fracs[i] = nsec / 1000
+		if f.ns {
+			fracs[i] = nsec
+		}
+	}
+	return writePcap(f, linkNum[k.links[0]], frames, origLens, secs, fracs), "-"
 }
